@@ -41,6 +41,7 @@ def jobs(tier):
     add(side="step", k=1, table=False)
     add(side="step", k=1, table=True)
     add(side="step", k=2, table=False)
+    add(side="enc", k=1, L=2, fast=False, table=False, vt=0, wf=1, real_arith=True)
     if tier == "quick":
         add(side="enc", k=1, L=2, fast=False, table=False, vt=0, wf=1)
         add(side="enc", k=1, L=3, fast=True, table=False, vt=0, wf=1, no_deg3=True)
@@ -154,6 +155,8 @@ def body_step(e, L, cfg):
         v = m.eval(V, model_completion=True).as_long()
         return {"kind": "coding", "acc": g.model_rows(m), "bits": [int(b) for b in bin(v)[2:]], "start": m.eval(start, model_completion=True).as_long(),
                 "fast": False, "vt": 0, "table": tab.model_rows(m) if tab is not None else None, "check": "tight"}
+    if kind == "nostate":
+        return {"status": "skip", "why": "ranking step not applicable to this source: " + str(info)}
     if kind != "step":
         r, m = e.check()
         if r != "sat":
